@@ -8,6 +8,13 @@ connection machine `Model/Conn.lean`; faults are labels of the schedule:
 `_shutdown_device`), `raise t e` (CommunicationError, TimeoutError, cancellation
 at the action the task is blocked in), `env timer/back/gone/connect`.  The
 theorems hold for every schedule, i.e. every placement of every fault.
+
+Connection clauses (`status_language`, `never_silent`, `failed_after_limit`,
+`attempts_reset_on_connect`, `recovery`): invariant `Conn.CInv` of
+`Proofs/ConnLang.lean`, lifted to schedules by `Proofs/ConnLangAsync.lean`.
+Completion of sends after `recovery` is `C15.progress` / `C15.nobody_hangs`
+under the explicit environment hypotheses `s.conn.up` and `GatewayAnswers s`.
+Not in the model: the retry *interval* (no clock).
 -/
 namespace DaliVerif.Props.C17
 open DaliVerif.Async DaliVerif.Conn
@@ -110,30 +117,206 @@ theorem serial_answer_wait_ends {s : St} {t : Tid} {tk : Async.Task} {st : Step}
   simp only [step?, actStep, ht, hp, ha]
   split <;> rfl
 
-/-- `recovery_partial`: while disconnected with a retry pending, once the device is back the next
-timer re-opens it, reports `connected` and restarts the handshake; `hsSteps` reports later
-`connected` is set again (then `connWait` is enabled and C15's `progress_partial` applies). -/
-theorem recovery_partial (c : Conn) (hp : c.pending = true) (hfd : c.fd = false) (hpr : c.present = true) :
+/-! ## the connection machine: callbacks, reconnect limit, recovery
+
+All of the following hold for every schedule `ls` of the interleaving model from a driver object
+on which `connect()` has not been called yet (`s0.conn.fresh`): any placement of losses (`env
+lose`, at any point including during the handshake and between retries), of the reconnect timer
+with the device present or absent (`env gone/back`), of explicit `connect()` calls, any reconnect
+limit (`none`, `some 0`, `some n`), any interleaving with callers, exceptions and cancellations.
+The invariant is `Conn.CInv` (`Proofs/ConnLang.lean`), carried through every step of
+`Model/Conn.lean` and through the projection `Async.run_conn` of schedules to connection events. -/
+
+/-- `status_language`: the callbacks delivered so far are a word the automaton `Conn.lstep` of
+`connected · (disconnected · (connected | failed))*` never gets stuck on (`idle` = before the
+first `connected` and again after `failed`, from where only an explicit `connect()` continues);
+moreover the automaton is in `up` exactly while the device file is open, and while it is in
+`down` — the last callback was `disconnected` — a retry is pending, so `connected` or `failed`
+will follow: the driver never goes silent after `disconnected`. -/
+theorem status_language {s0 s : St} {ls : List Label} (hc : s0.conn.fresh) (h : run? s0 ls = some s) :
+    ∃ q, lrun .idle s.conn.cbs = some q ∧ (q = .up ↔ s.conn.fd = true) ∧
+      (q = .down → s.conn.pending = true) :=
+  (reachable_CInv hc h).lang
+
+/-- `status_language` as the executable check the trace acceptor could run -/
+theorem status_language_ok {s0 s : St} {ls : List Label} (hc : s0.conn.fresh) (h : run? s0 ls = some s) :
+    s.conn.langOK = true := by
+  obtain ⟨q, hq, _⟩ := status_language hc h
+  simp [Conn.langOK, hq]
+
+/-- `status_language` for the connection machine on its own: every event sequence -/
+theorem status_language_conn {c0 c : Conn} {es : List Conn.Ev} (hc : c0.fresh)
+    (h : Conn.run Conn.step c0 es = some c) : c.langOK = true := by
+  obtain ⟨q, hq, _⟩ := (run_CInv (fresh_CInv hc) h).lang
+  simp [Conn.langOK, hq]
+
+/-- `status_language`, the literal form `connected · (disconnected · (connected | failed))*`
+with nothing after `failed`: when the application calls `connect()` once, with the device there,
+and never again, the callbacks are accepted by the strict automaton `Conn.sstep` (no `idle`
+state: `failed` is final). -/
+theorem status_language_strict {c0 c : Conn} {es : List Conn.Ev} (hc : c0.fresh) (hpr : c0.present = true)
+    (hes : ∀ e ∈ es, e ≠ .connect) (h : Conn.run Conn.step c0 (.connect :: es) = some c) :
+    (srun .start c.cbs).isSome = true :=
+  strict_language hc hpr hes h
+
+/-- after `disconnected` the driver keeps trying: if the last callback is `disconnected`, the
+device file is closed and a retry is pending -/
+theorem retry_pending_while_disconnected {s0 s : St} {ls : List Label} (hc : s0.conn.fresh)
+    (h : run? s0 ls = some s) (hlast : s.conn.cbs.getLast? = some .disconnected) :
+    s.conn.fd = false ∧ s.conn.pending = true := by
+  obtain ⟨q, hq, hup, hdown⟩ := status_language hc h
+  have hqd : q = .down := lrun_last_disconnected hq hlast
+  refine ⟨?_, hdown hqd⟩
+  cases hf : s.conn.fd with
+  | false => rfl
+  | true => have := hup.mpr hf; rw [hqd] at this; cases this
+
+/-- the driver never gives up silently (the general form of the F9 repair): in every reachable
+state with the device closed and no retry pending, either nothing was ever reported (`connect()`
+not called yet) or the last callback is `failed`. -/
+theorem never_silent {s0 s : St} {ls : List Label} (hc : s0.conn.fresh) (h : run? s0 ls = some s)
+    (hfd : s.conn.fd = false) (hp : s.conn.pending = false) :
+    s.conn.cbs = [] ∨ s.conn.cbs.getLast? = some .failed :=
+  (reachable_CInv hc h).never_silent hfd hp
+
+/-- `failed_after_limit`: every `failed` callback was delivered after exactly `reconnect_limit`
+failed timer-driven attempts of that outage (one ghost entry per `failed` callback, each equal to
+the limit); while a retry is pending fewer than `limit` attempts of this outage have failed (the
+driver never tries more often than the limit); with `reconnect_limit=None` there is never a
+`failed`; the limit itself never changes. -/
+theorem failed_after_limit {s0 s : St} {ls : List Label} (hc : s0.conn.fresh) (h : run? s0 ls = some s) :
+    s.conn.limit = s0.conn.limit ∧
+    (∀ k, k ∈ s.conn.failedAfter → s.conn.limit = some k) ∧
+    nFailed s.conn.cbs = s.conn.failedAfter.length ∧
+    (s.conn.pending = true → ∀ l, s.conn.limit = some l → s.conn.attempts < l) ∧
+    (s.conn.limit = none → nFailed s.conn.cbs = 0) := by
+  have hI := reachable_CInv hc h
+  refine ⟨(run_config (run_conn h)).1, hI.failed, hI.nfail, fun hp => (hI.pend hp).2, ?_⟩
+  intro hn
+  rw [hI.nfail]
+  cases hf : s.conn.failedAfter with
+  | nil => rfl
+  | cons k l =>
+    have := hI.failed k (by rw [hf]; exact List.mem_cons_self)
+    rw [hn] at this; cases this
+
+/-- `failed_after_limit`, step form — exactly when: a retry with the device still absent counts
+the attempt; it reports `failed` (and stops retrying, `_reconnect_count` back to 0) if and only if
+the attempts of this outage have now reached the limit, otherwise it reports nothing and arms the
+next retry. -/
+theorem retry_until_limit {s0 s : St} {ls : List Label} (hc : s0.conn.fresh) (h : run? s0 ls = some s)
+    (hp : s.conn.pending = true) (hpr : s.conn.present = false) :
+    ∃ s', step? s (.env .timer) = some s' ∧ s'.conn.fd = false ∧ s'.conn.attempts = s.conn.attempts + 1 ∧
+      ((s.conn.limit = some (s.conn.attempts + 1) ∧ s'.conn.cbs = s.conn.cbs ++ [.failed] ∧
+          s'.conn.pending = false ∧ s'.conn.count = 0) ∨
+       (s.conn.limit ≠ some (s.conn.attempts + 1) ∧ s'.conn.cbs = s.conn.cbs ∧ s'.conn.pending = true ∧
+          s'.conn.count = s.conn.attempts + 2)) := by
+  obtain ⟨c', hst, hfd, hat, hcase⟩ := timer_absent (reachable_CInv hc h) hp hpr
+  refine ⟨{ s with conn := c' }, by simp [step?, hst], hfd, hat, ?_⟩
+  rcases hcase with ⟨h1, h2, h3, h4, _⟩ | ⟨h1, h2, h3, h4, _⟩
+  · exact Or.inl ⟨h1, h2, h3, h4⟩
+  · exact Or.inr ⟨h1, h2, h3, h4⟩
+
+/-- `attempts_reset_on_connect` (1): in every reachable state with the device file open,
+`_reconnect_count` is 0 and no retry is pending — every path that opens the device (first
+`connect()`, a retry, an explicit `connect()` after `failed`) resets the counter. -/
+theorem attempts_reset_on_connect {s0 s : St} {ls : List Label} (hc : s0.conn.fresh) (h : run? s0 ls = some s)
+    (hfd : s.conn.fd = true) : s.conn.count = 0 ∧ s.conn.pending = false := by
+  have hI := reachable_CInv hc h
+  exact ⟨hI.idle (hI.fdp hfd), hI.fdp hfd⟩
+
+/-- `attempts_reset_on_connect` (2), step form, no invariant needed: whichever event opens the
+device reports `connected`, sets `_reconnect_count = 0` and restarts the handshake. -/
+theorem connect_resets_counter {s s' : St} {e : Conn.Ev} (h : step? s (.env e) = some s')
+    (h0 : s.conn.fd = false) (h1 : s'.conn.fd = true) :
+    s'.conn.count = 0 ∧ s'.conn.cbs = s.conn.cbs ++ [.connected] ∧ s'.conn.hsLeft = s'.conn.hsSteps ∧
+      s'.conn.pending = false :=
+  open_resets (step_env_conn h) h0 h1
+
+/-- `attempts_reset_on_connect` (3): the limit is a budget per outage, not per lifetime.  Every
+loss starts the outage's attempt counter at 0 (and arms the first retry with `_reconnect_count =
+1`, or reports `failed` at once for limit 0), and while a retry is pending `_reconnect_count` is
+exactly one more than the failed attempts of THIS outage. -/
+theorem limit_is_per_outage {s0 s : St} {ls : List Label} (hc : s0.conn.fresh) (h : run? s0 ls = some s) :
+    (s.conn.pending = true → s.conn.count = s.conn.attempts + 1) ∧
+    (∀ s', step? s (.env .lose) = some s' →
+      s'.conn.fd = false ∧ s'.conn.attempts = 0 ∧
+      ((s.conn.limit = some 0 ∧ s'.conn.cbs = s.conn.cbs ++ [.disconnected, .failed] ∧
+          s'.conn.pending = false ∧ s'.conn.count = 0) ∨
+       (s.conn.limit ≠ some 0 ∧ s'.conn.cbs = s.conn.cbs ++ [.disconnected] ∧
+          s'.conn.pending = true ∧ s'.conn.count = 1))) := by
+  have hI := reachable_CInv hc h
+  exact ⟨fun hp => (hI.pend hp).1, fun s' hs => lose_starts_outage hI (step_env_conn hs)⟩
+
+/-- one step of `recovery` on the connection machine alone: with a retry pending and the device
+back, the timer re-opens it, reports `connected` and restarts the handshake -/
+theorem reconnect_when_back (c : Conn) (hp : c.pending = true) (hfd : c.fd = false) (hpr : c.present = true) :
     ∃ c', Conn.step c .timer = some c' ∧ c'.fd = true ∧ c'.hsLeft = c.hsSteps ∧
       c'.cbs = c.cbs ++ [.connected] ∧ c'.count = 0 ∧ c'.pending = false := by
-  obtain ⟨limit, hsSteps, present, fd, hsLeft, count, pending, cbs, attempts, failedAfter⟩ := c
-  simp only at hp hfd hpr
-  subst hp hfd hpr
-  refine ⟨{ limit := limit, hsSteps := hsSteps, present := true, fd := true, hsLeft := hsSteps, count := 0,
-            pending := false, cbs := cbs ++ [.connected], attempts := attempts, failedAfter := failedAfter },
-          by simp [Conn.step, stepWith, openWith], rfl, rfl, rfl, rfl, rfl⟩
+  rw [step_timer hp, openWith_present (c := { c with pending := false }) _ _ hfd hpr]
+  exact ⟨_, rfl, rfl, rfl, rfl, rfl, rfl⟩
 
 theorem handshake_completes (c : Conn) (hfd : c.fd = true) (n : Nat) (hn : c.hsLeft = n) :
     ∃ c', Conn.run Conn.step c (List.replicate n .hs) = some c' ∧ c'.up = true ∧ c'.cbs = c.cbs := by
-  induction n generalizing c with
-  | zero => exact ⟨c, rfl, by simp [Conn.up, hfd, hn], rfl⟩
-  | succ k ih =>
-    obtain ⟨c', h1, h2, h3⟩ := ih { c with hsLeft := k } hfd rfl
-    refine ⟨c', ?_, h2, h3⟩
-    simp only [List.replicate_succ, Conn.run]
-    have : Conn.step c .hs = some { c with hsLeft := k } := by
-      simp [Conn.step, stepWith, hfd, hn]
-    rw [this]; exact h1
+  obtain ⟨c', h1, h2, h3, _⟩ := hs_run hfd n hn
+  exact ⟨c', h1, h2, h3⟩
+
+/-- `recovery`: in any reachable state whose last callback is `disconnected` (whatever happened
+before: losses during the handshake, failed retries, callers queued or failed), when the device
+returns (`env back`), the next retry (`env timer`) and the gateway's `hsSteps` handshake reports
+(`env hs`; 2 for Tridonic, 0 for hasseb) are all enabled, and lead to a state in which
+`connected` is set again, `connected` has been reported exactly once more, `_reconnect_count`
+is 0, nothing of the callers' state (programs, locks, table, mailbox) was touched — and every
+caller queued in `await self.connected.wait()` can now proceed.  From there `C15.progress` /
+`C15.nobody_hangs` apply (hypotheses: `connected` set, `GatewayAnswers`): queued and new sends
+run to completion.  The environment assumptions are exactly the three labels of the schedule:
+the device returns, the timer fires, the gateway answers the handshake. -/
+theorem recovery {s0 s : St} {ls : List Label} (hc : s0.conn.fresh) (h : run? s0 ls = some s)
+    (hlast : s.conn.cbs.getLast? = some .disconnected) :
+    ∃ s', run? s (.env .back :: .env .timer :: List.replicate s.conn.hsSteps (.env .hs)) = some s' ∧
+      s'.conn.up = true ∧ s'.conn.cbs = s.conn.cbs ++ [.connected] ∧ s'.conn.count = 0 ∧
+      s'.conn.pending = false ∧
+      s'.tasks = s.tasks ∧ s'.lock = s.lock ∧ s'.inner = s.inner ∧ s'.slots = s.slots ∧ s'.mail = s.mail ∧
+      (∀ t tk st rest, s'.tasks[t]? = some tk → tk.prog = st :: rest → st.act = .connWait →
+        (step? s' (.act t)).isSome = true) := by
+  obtain ⟨hfd, hp⟩ := retry_pending_while_disconnected hc h hlast
+  have hI := reachable_CInv hc h
+  -- back
+  have hb : Conn.step s.conn .back = some { s.conn with present := true } := rfl
+  have hIb : CInv { s.conn with present := true } := step_CInv hI hb
+  -- timer
+  obtain ⟨c1, ht, hfd1, hhs1, hst1, hcb1, hcnt1, hp1⟩ :=
+    timer_present (c := { s.conn with present := true }) hIb hp rfl
+  -- handshake
+  obtain ⟨c2, hr2, hup2, hcb2, hcnt2, hp2, _⟩ := hs_run hfd1 s.conn.hsSteps hhs1
+  have hsrun : ∀ (n : Nat) (x : St) (c : Conn), Conn.run Conn.step x.conn (List.replicate n .hs) = some c →
+      run? x (List.replicate n (.env .hs)) = some { x with conn := c } := by
+    intro n
+    induction n with
+    | zero => intro x c hx; simp only [List.replicate_zero, Conn.run, Option.some.injEq] at hx; subst hx; rfl
+    | succ k ih =>
+      intro x c hx
+      simp only [List.replicate_succ, Conn.run] at hx
+      cases hs1 : Conn.step x.conn .hs with
+      | none => simp [hs1] at hx
+      | some c' =>
+        simp only [hs1] at hx
+        simp only [List.replicate_succ, run?, step?, hs1]
+        exact ih { x with conn := c' } c hx
+  refine ⟨{ s with conn := c2 }, ?_, hup2, ?_, ?_, ?_, rfl, rfl, rfl, rfl, rfl, ?_⟩
+  · have e1 : step? s (.env .back) = some { s with conn := { s.conn with present := true } } := by
+      simp [step?, hb]
+    have e2 : step? { s with conn := { s.conn with present := true } } (.env .timer) =
+        some { s with conn := c1 } := by
+      simp [step?, ht]
+    simp only [run?, e1, e2]
+    exact hsrun _ { s with conn := c1 } c2 hr2
+  · rw [hcb2, hcb1]
+  · rw [hcnt2, hcnt1]
+  · rw [hp2, hp1]
+  · intro t tk st rest htk hprog hact
+    have htk' : s.tasks[t]? = some tk := htk
+    simp [step?, actStep, htk', hprog, hact, hup2]
 
 /-! ## the unchanged tree: witnesses (negations of the theorems above on the old programs) -/
 
@@ -168,5 +351,60 @@ theorem f9_fixed_code_reports :
     (Conn.run Conn.step { limit := some 1, hsSteps := 2 } [.connect, .lose, .timer]).map
       (fun c => (c.cbs, c.pending, c.failedAfter)) = some ([.connected, .disconnected, .failed], false, [1]) := by
   decide
+
+/-! ## non-vacuity of the connection theorems -/
+
+/-- limit 1: `connect()`, loss, one failed retry ⇒ `failed` (a run that reaches `failed`) -/
+example :
+    (Conn.run Conn.step { limit := some 1, hsSteps := 2 } [.connect, .hs, .hs, .lose, .timer]).map
+      (fun c => (c.cbs, c.pending, c.count, c.failedAfter, c.langOK)) =
+    some ([.connected, .disconnected, .failed], false, 0, [1], true) := by decide
+
+/-- limit 1: `connect()`, loss, device back, retry ⇒ `connected` again, handshake repeated, up -/
+example :
+    (Conn.run Conn.step { limit := some 1, hsSteps := 2 } [.connect, .hs, .hs, .lose, .back, .timer, .hs, .hs]).map
+      (fun c => (c.cbs, c.up, c.count, c.failedAfter, c.langOK)) =
+    some ([.connected, .disconnected, .connected], true, 0, [], true) := by decide
+
+/-- the limit is per outage: limit 2, the first outage uses one failed attempt and recovers, the
+second outage still gets its full two attempts before `failed` (a lifetime budget would report
+`failed` after one) -/
+example :
+    (Conn.run Conn.step { limit := some 2, hsSteps := 0 }
+      [.connect, .lose, .timer, .back, .timer, .lose, .timer, .timer]).map
+      (fun c => (c.cbs, c.pending, c.failedAfter)) =
+    some ([.connected, .disconnected, .connected, .disconnected, .failed], false, [2]) := by decide
+
+/-- … and after one failed attempt of the second outage a retry is still pending -/
+example :
+    (Conn.run Conn.step { limit := some 2, hsSteps := 0 }
+      [.connect, .lose, .timer, .back, .timer, .lose, .timer]).map
+      (fun c => (c.cbs, c.pending, c.count, c.attempts)) =
+    some ([.connected, .disconnected, .connected, .disconnected], true, 2, 1) := by decide
+
+/-- the hypotheses of the theorems are satisfiable: the default driver object is fresh, and the
+interleaving model reaches `failed` and a reconnection through `step?` -/
+example (limit : Option Nat) (hsSteps : Nat) : ({ limit := limit, hsSteps := hsSteps } : Conn).fresh :=
+  ⟨rfl, rfl, rfl, rfl, rfl, rfl⟩
+
+example :
+    let s0 : St := { cap := 2, conn := { limit := some 1, hsSteps := 2 } }
+    (run? s0 [.env .connect, .env .hs, .spawn (mkTask .tridonic (.send q0 true)), .env .hs, .act 0,
+              .env .lose, .env .back, .env .timer, .env .hs, .env .hs, .act 0]).map
+      (fun s => (s.conn.cbs, s.conn.up, s.tasks.map (·.prog.length))) =
+    some ([.connected, .disconnected, .connected], true, [8]) := by decide
+
+/-- a send queued across an outage completes after the recovery: the caller takes the lock, the
+device is lost, returns, the handshake is repeated, and with the gateway answering (echo, answer
+for sequence number 1) all ten steps of the Tridonic `send` run; everything is released -/
+example :
+    let s0 : St := { cap := 2, conn := { limit := some 1, hsSteps := 2 } }
+    (run? s0 [.env .connect, .env .hs, .env .hs, .spawn (mkTask .tridonic (.send q0 true)), .act 0,
+              .env .lose, .env .back, .env .timer, .env .hs, .env .hs,
+              .act 0, .act 0, .act 0, .act 0, .deliver 1 .echo, .act 0, .deliver 1 .answer, .act 0,
+              .act 0, .act 0, .act 0]).map
+      (fun s => (s.conn.cbs, s.tasks.all Task.finished && s.lock.isNone && s.inner.isEmpty && s.slots.isEmpty,
+                 measure s)) =
+    some ([.connected, .disconnected, .connected], true, 0) := by decide
 
 end DaliVerif.Props.C17
